@@ -324,6 +324,16 @@ def model (op : String) (a : List String) : Option Out :=
       | .ok mm => some (.ok [some mm.toList])
       | .error e => some (.err (perr e))
     | _ => none
+  | "mcell", [ocs, p, sc, rot, base, col, row, cs, rs] => do
+    match ← parseRats sc with
+    | [sx, sy, sz] =>
+      let i : Ins := ⟨← parseV3 p, sx, sy, sz, ← parseV2 rot⟩
+      some (.ok [some (insertMatrix (← parseOcs ocs) (i.gridCell (← parseRat col) (← parseRat row) (← parseRat cs) (← parseRat rs)) (← parseV3 base)).toList])
+    | _ => none
+  | "shape", [m, old, new, ins, rot, size, xs, t] => do
+    let o : OcsT := ⟨← parseM m, ← parseOcs old, ← parseOcs new, true⟩
+    let r := Shp.transform sqrtA o ⟨← parseV3 ins, ← parseV2 rot, ← parseRat size, ← parseRat xs, ← parseOpt t⟩
+    some (.ok [some (v3l r.insert), some (unit2 r.rot), some [r.size], some [r.xscale], optR r.thickness])
   | "temp", [ms] => do
     -- history of `transform` calls on one ACIS entity: the pending matrix (absent for an empty history)
     match tempRun none (← parseList parseM ms) with
